@@ -139,12 +139,10 @@ func mirrorExec(c *Ctx, op string) {
 			os.WriteFile(p, other, 0644)
 			pickToks = append(pickToks, scheme+":holding")
 		case "dirware":
-			// the address holds a directory: it opens, and the first read fails (a read error in mid-stream)
+			// the address holds a directory: no ware (since `fix:` 36c6728 kvfs answers not-found; it used to open, and
+			// fail at the first read)
 			os.MkdirAll(p, 0755)
-			pickToks = append(pickToks, scheme+":holding")
-		}
-		if cd == "dirware" && firstHolder == "" {
-			firstHolder = cd
+			pickToks = append(pickToks, scheme+":lacking")
 		}
 		if cd == "good" || cd == "corrupt" || cd == "mislabelled" {
 			srcFiles = append(srcFiles, p)
